@@ -290,11 +290,11 @@ func copyData(d map[string]any) map[string]any {
 		case []uint8:
 			nv := make([]byte, len(v2))
 			_ = copy(nv, v2)
-			d2[k] = v2
+			d2[k] = nv
 		case []string:
 			nv := make([]string, len(v2))
 			_ = copy(nv, v2)
-			d2[k] = v2
+			d2[k] = nv
 		case *string:
 			d2[k] = v2
 		case *int:
@@ -327,7 +327,7 @@ func copyData(d map[string]any) map[string]any {
 			} else {
 				nv := make([]byte, len(*v2))
 				_ = copy(nv, *v2)
-				d2[k] = v2
+				d2[k] = &nv
 			}
 		}
 	}
